@@ -16,10 +16,22 @@ WEIGHTS = [("hostile", 4), ("plain", 1), ("thin", 1), ("nobpe", 1), ("fullmatch"
 
 
 def plan(tier, seed):
-    return _sim.plan_profiles(tier, seed, WEIGHTS, 6000, 64000)
+    cases = _sim.plan_profiles(tier, seed, WEIGHTS, 6000, 64000)
+    # the same engine under paper trading (live Flumine, calls on the execution pool, completion reported by the poller)
+    cases += [{"mode": "paper_walk", "seed": seed, "idx": i, "len": 40 + i % 50} for i in range(300 if tier == "quick" else 6000)]
+    return cases
 
 
 def run(desc):
+    if desc.get("mode") == "paper_walk":
+        from .. import paperwalk
+
+        r = paperwalk.walk(desc)
+        out = O.Out(PROPERTY)
+        O.c04_conservation(r.tr, out, r.snaps, O.root_causes(r.tr))
+        out.c("paper_orders", len(r.tr.samples))
+        out.c("paper_walks")
+        return out.result()
     case, snaps = _sim.build(desc)
     tr = simrun.run_case(case)
     out = O.Out(PROPERTY)
